@@ -155,11 +155,13 @@ struct CapWorld : World {
                         if (!has) { snprintf(b, sizeof b, "ThreadLink(MaxMsg=%zu): a %zu-byte message was not queued", mm, needed); fail("LINK-LOST", b); }
                         else { const char *rd = tl.read(); if (memcmp(rd, ref.data(), needed)) { snprintf(b, sizeof b, "ThreadLink(MaxMsg=%zu): message differs after the trip", mm); fail("LINK-BYTES", b); } } }
                     // the documented raw route: build into buffer() with the capacity buffer_size() reports, then raw_write (as example/complex/synth.cpp does)
+                    // (the reference bytes are what the array constructor itself writes into a generous buffer: the variadic one passes floats through double, which quiets a signalling NaN)
                     if (res.cls.empty()) { rtosc::ThreadLink t2(mm, 3); size_t cap = t2.buffer_size(), got = rtosc_amessage(t2.buffer(), cap, m.addr.c_str(), p.types.c_str(), p.args.data()); stat_add(ST_EVALS);
+                        std::vector<char> ref2(needed + 4096); size_t need2 = rtosc_amessage(ref2.data(), ref2.size(), m.addr.c_str(), p.types.c_str(), p.args.data());
                         if (got) t2.raw_write(t2.buffer());
                         bool h2 = t2.hasNext();
-                        if (mm < needed && h2) { snprintf(b, sizeof b, "ThreadLink(MaxMsg=%zu) raw route: a %zu-byte message was queued", mm, needed); fail("LINK-OVERSIZE", b); }
-                        if (mm >= needed && (!h2 || memcmp(t2.read(), ref.data(), needed))) { snprintf(b, sizeof b, "ThreadLink(MaxMsg=%zu) raw route: a %zu-byte message was lost or changed", mm, needed); fail("LINK-LOST", b); } }
+                        if (mm < need2 && h2) { snprintf(b, sizeof b, "ThreadLink(MaxMsg=%zu) raw route: a %zu-byte message was queued", mm, need2); fail("LINK-OVERSIZE", b); }
+                        if (mm >= need2 && (!h2 || memcmp(t2.read(), ref2.data(), need2))) { snprintf(b, sizeof b, "ThreadLink(MaxMsg=%zu) raw route: a %zu-byte message was lost or changed", mm, need2); fail("LINK-LOST", b); } }
                 }
             }
         } else {
